@@ -129,3 +129,33 @@ void drv_c16_binshapes(int tier, unsigned long seed, const char *extra) {
   if (cnt) { callf("mpz_clear", 0); rec_quiesce(); }
   fclose(f);
 }
+
+/* c16_psp: composites that the library's own candidate filter accepts.  mpz_next_prime_candidate = trial division by the primes below 1000, a Fermat test to
+   base 210 and two Miller-Rabin rounds; the composites that survive it are products p*q, q = k(p-1)+1, p, q > 1000, with 210^(n-1) = 1 (mod n).  The driver
+   finds such n privately (arithmetic only: the oracle decides primality) and asks for the next prime / candidate from just below each, and from n itself;
+   those with a prime at n+2 or n+4.. are where a search that resumes "after" a rejected candidate can step over a prime. */
+void drv_c16_psp(int tier, unsigned long seed, const char *extra) {
+  shard_t sh = shard_parse(extra); long x = 0; unsigned long p, pmax = sh.pure ? 3000 : (tier ? 400000 : 90000); int j;
+  mpz_t n, t, b; unsigned long found[4096]; unsigned long long fk[4096]; int nf = 0, i;
+  priv_begin(); mpz_init(n); mpz_init(t); mpz_init(b);
+  for (p = 1009; p < pmax && nf < 4000; p += 2) { unsigned long k;
+    mpz_set_ui(t, p); if (!mpz_probab_prime_p(t, 10)) continue;
+    for (k = 2; k <= 8; k++) { unsigned long q = k * (p - 1) + 1;
+      mpz_set_ui(t, q); if (!mpz_probab_prime_p(t, 10)) continue;
+      mpz_set_ui(n, p); mpz_mul_ui(n, n, q); mpz_sub_ui(t, n, 1); mpz_set_ui(b, 210); mpz_powm(b, b, t, n);
+      if (mpz_cmp_ui(b, 1) != 0) continue;
+      if (nf < 4000) { found[nf] = p; fk[nf] = k; nf++; } } }
+  priv_end();
+  for (i = 0; i < nf; i += 12) {
+    x++; if (!MINE(sh, x)) continue;
+    rec_reset("c16_psp", x, seed); for (j = 0; j < 3; j++) callf("mpz_init", j); callf("gmp_randinit_default", 0); callf("gmp_randseed_ui", 0, (uint64_t)(seed + x));
+    for (j = i; j < i + 12 && j < nf; j++) { char hx[40]; unsigned __int128 v = (unsigned __int128)found[j] * (fk[j] * (found[j] - 1) + 1); 
+      snprintf(hx, sizeof hx, "%lx%016lx", (unsigned long)(v >> 64), (unsigned long)v); { char *h = hx; while (*h == '0' && h[1]) h++; callf("drv_setz", 0, h); }
+      callf("mpz_sub_ui", 1, 0, (uint64_t)1); callf("mpz_nextprime", 2, 1); callf("mpz_next_prime_candidate", 2, 1, 0);      /* from n-1: the first candidate is n */
+      callf("mpz_sub_ui", 1, 0, (uint64_t)(2 + 2 * rnd_below(20))); callf("mpz_nextprime", 2, 1);
+      callf("mpz_nextprime", 2, 0); callf("mpz_set", 2, 0); callf("mpz_nextprime", 2, 2);
+      callf("mpz_probab_prime_p", 0, 25); callf("mpz_probable_prime_p", 0, 0, 25, (uint64_t)0); callf("mpz_likely_prime_p", 0, 0, (uint64_t)0); callf("mpz_miller_rabin", 0, 25, 0); }
+    for (j = 0; j < 3; j++) callf("mpz_clear", j); callf("gmp_randclear", 0); rec_quiesce();
+  }
+  priv_begin(); mpz_clear(n); mpz_clear(t); mpz_clear(b); priv_end();
+}
